@@ -5,6 +5,10 @@ Hand-written model of the three carrier methods and of what a TextMap propagator
 -- models: plugin/kotel/carrier.go:RecordCarrier.Get
 -- models: plugin/kotel/carrier.go:RecordCarrier.Set
 -- models: plugin/kotel/carrier.go:RecordCarrier.Keys
+The records of a fetched batch (`Batch`) are independent header lists: that is the specification of what
+pkg/kgo/source.go `recordToRecord` hands out (each record's `Headers` is a window of one per-batch slab whose
+capacity is capped at its length, so an `append` by `Set` can never reach a neighbour's slots).
+-- models: pkg/kgo/source.go:recordToRecord
 Core Lean only (linked into the driver). -/
 namespace Model.C37
 
@@ -110,5 +114,78 @@ def specRead (P : Obs) (k : Bytes) (N : Obs) : Bool :=
 
 /-- The wire half: what was injected is what is extracted. -/
 def specPropagate (tpIn tsIn tpOut tsOut : Bytes) : Bool := tpOut == tpIn && tsOut == tsIn
+
+/-! ### The records of a fetched batch
+
+`kgo.ProcessFetchPartition` decodes a record batch into records whose header lists are, to every user of the
+records, independent values. The carrier works on ONE record; the model of a carrier operation on record `i`
+of a batch therefore rewrites element `i` and nothing else. (That this is what the code does — that the Go
+slices do not alias — is not provable from here; the differential run on really fetched records checks it.) -/
+
+abbrev Batch := List (List Hdr)
+
+/-- apply `f` to the header list of record `i` (a carrier built on that record); out of range: nothing -/
+def bmod (f : List Hdr → List Hdr) : Batch → Nat → Batch
+  | [], _ => []
+  | h :: rs, 0 => f h :: rs
+  | h :: rs, i + 1 => h :: bmod f rs i
+
+/-- `NewRecordCarrier(batch[i]).Set(k, v)` -/
+def bset (b : Batch) (i : Nat) (k v : Bytes) : Batch := bmod (fun h => cset h k v) b i
+
+/-- the producer-side hook on record `i`: `TraceContext.Inject` through a carrier on that record -/
+def binj (b : Batch) (i : Nat) (tp ts : Bytes) : Batch := bmod (fun h => inject h tp ts) b i
+
+/-- a bridge forwards the records of a batch in some order, each with its own trace context -/
+def binjAll (b : Batch) (ops : List (Nat × Bytes × Bytes)) : Batch :=
+  ops.foldl (fun acc o => binj acc o.1 o.2.1 o.2.2) b
+
+/-- observation of one record of a batch (no operation key) -/
+def robs (h : List Hdr) : Obs := obs h []
+
+/-- what the harness dumps after every batch operation: every record's observation -/
+def bobs (b : Batch) : List Obs := b.map robs
+
+/-- Spec, "no other header changes" across records: every record other than `i` is observed exactly as
+before (headers, Keys, Gets), and no record appears or disappears. -/
+def othersUntouched : Nat → List Obs → List Obs → Bool
+  | _, [], [] => true
+  | 0, _ :: ps, _ :: ns => ps == ns
+  | i + 1, p :: ps, n :: ns => p == n && othersUntouched i ps ns
+  | _, _, _ => false
+
+/-- Spec of `Set(k, v)` on record `i` of a batch: the other records are untouched, record `i` obeys `specSet`.
+`r` is the observed `Get(k)` on record `i` afterwards. -/
+def specBSet (P : List Obs) (i : Nat) (k v : Bytes) (N : List Obs) (r : Bytes) : Bool :=
+  othersUntouched i P N &&
+  match P[i]?, N[i]? with
+  | some p, some n => specSet p k v { n with getK := r }
+  | _, _ => false
+
+/-- Spec of a read on record `i`: no record changes, the answer agrees with record `i` seen as a map. -/
+def specBRead (P : List Obs) (i : Nat) (k : Bytes) (N : List Obs) (r : Bytes) : Bool :=
+  N == P &&
+  match P[i]? with
+  | some p => specKeys p && r == expectGet p.hdrs p.gets k
+  | none => false
+
+def isPropKey (k : Bytes) : Bool := k == traceparentKey || k == tracestateKey
+
+/-- the application's headers: everything that is not a W3C propagation field -/
+def appHdrs (h : List Hdr) : List Hdr := h.filter (fun x => !isPropKey x.key)
+
+/-- Spec of what a forwarding hop may do to ONE record's headers (`orig` as produced upstream, `sink` as
+consumed downstream): the application headers arrive unchanged and in order, and at most the two
+propagation fields were added. -/
+def specForward (orig sink : List Hdr) : Bool :=
+  appHdrs sink == appHdrs orig && orig.length ≤ sink.length && sink.length ≤ orig.length + 2
+
+/-- Spec of the producer-side hook on record `i` of a batch: other records untouched; on record `i` the
+application headers are intact, Keys is right and `Get("traceparent")` (observed `r`) is the injected one. -/
+def specBInj (P : List Obs) (i : Nat) (tp : Bytes) (N : List Obs) (r : Bytes) : Bool :=
+  othersUntouched i P N &&
+  match P[i]?, N[i]? with
+  | some p, some n => specKeys n && specForward p.hdrs n.hdrs && r == tp
+  | _, _ => false
 
 end Model.C37
